@@ -73,6 +73,7 @@ type objObs struct {
 	mirror byte // '-', 'q', 'd'
 	live   bool
 	parent bool // heads entry carries the parent id
+	advHS  bool // advertised by the REAL headsync component (after its update queue drained)
 }
 
 type caseRun struct {
@@ -143,6 +144,13 @@ func (c *caseRun) observe() []objObs {
 	for _, id := range w.dm.AllIds() {
 		adv[id] = true
 	}
+	if err := w.hsBarrier(); err != nil {
+		c.violate("", "tombstoned_not_advertised", err.Error())
+	}
+	advHS := map[string]bool{}
+	for _, id := range w.hs.AllIds() {
+		advHS[id] = true
+	}
 	queued := map[string]bool{}
 	for _, id := range w.delState.GetQueued() {
 		queued[id] = true
@@ -159,6 +167,7 @@ func (c *caseRun) observe() []objObs {
 			c.r.Fatal("GetEntry: " + err.Error())
 		}
 		ob.adv = adv[o.id]
+		ob.advHS = advHS[o.id]
 		_, err = w.local.st.TreeStorage(ctx, o.id)
 		ob.stored = err == nil
 		ob.mirror = '-'
@@ -276,6 +285,13 @@ func (c *caseRun) oracle(kind string, obs []objObs, del []int) {
 		// a tombstoned id is not advertised
 		if c.tombstoned[k] && o.adv {
 			c.violate(c.taintSig(k), "tombstoned_not_advertised", fmt.Sprintf("object %d is tombstoned (status %d) but in the advertised head index after %s", k, o.status, kind))
+		}
+		// … nor by the real headsync component (real subscription order, real update queue)
+		if c.tombstoned[k] && o.advHS {
+			c.violate(c.taintSig(k), "tombstoned_not_advertised", fmt.Sprintf("object %d is tombstoned (status %d) but the real head sync still advertises it after %s", k, o.status, kind))
+		}
+		if o.adv != o.advHS {
+			c.violate("", "tombstoned_not_advertised", fmt.Sprintf("object %d: the real head sync's index (%v) differs from the directly wired DiffManager's (%v) after %s", k, o.advHS, o.adv, kind))
 		}
 		// no resurrection: a Deleted id has no stored tree and no live object
 		if o.entry && o.status == int(headstorage.DeletedStatusDeleted) && (o.stored || o.live) {
@@ -741,6 +757,58 @@ func (c *caseRun) doRestart() {
 	c.markAttached()
 	c.step(line, "restart", "ok")
 	c.checkScratch("restart")
+}
+
+// doRestartRace: restart with a deletion of k landing DURING space start: deletion state, deletion manager and
+// settings object are already running, the real head sync is inside Run — its FillDiff has filled the index
+// and is about to store the space hash — when a remote deletion record for k is applied by the settings
+// object. On the code as it is (subscribe, then FillDiff) this equals `restart; deliver`, which is what the
+// model is asked.
+func (c *caseRun) doRestartRace(k int) {
+	c.abortFetch()
+	c.doRec(0, []int{k}, false)
+	w := c.w
+	var restartBuilds []*buildRec
+	var before *settingsstate.State
+	fired := false
+	w.onFillDiff = func() {
+		fired = true
+		restartBuilds, w.builds = w.builds, nil
+		before = w.lastState
+		var batch []*treechangeproto.RawTreeChangeWithId
+		for _, ch := range c.rawOf(w.remoteSettings[0]) {
+			if !w.settings.HasChanges(ch.Id) {
+				batch = append(batch, ch)
+			}
+		}
+		w.settings.Lock()
+		_, err := w.settings.AddRawChangesFromPeer(ctx, remotePeerId, objecttree.RawChangesPayload{NewHeads: w.remoteSettings[0].Heads(), RawChanges: batch})
+		w.settings.Unlock()
+		if err != nil {
+			c.r.Fatal("deliver during start: " + err.Error())
+		}
+	}
+	if err := w.restart(); err != nil {
+		c.r.Fatal("restart: " + err.Error())
+	}
+	w.onFillDiff = nil
+	if !fired {
+		c.r.Fatal("the real head sync did not reach the end of FillDiff during Run")
+	}
+	injected := w.builds
+	if w.updates != 1+len(injected) {
+		c.violate("", "deletedIds_det", "after restart the state built from the stored snapshot differs from the full history (checkHistoryState had to repair it)")
+	}
+	w.updates = 0
+	w.builds = restartBuilds
+	c.ask("restart " + c.buildsWire(nil)) // intermediate state not observable: compared after the delivery
+	w.builds = injected
+	line := "deliver " + c.buildsWire(before)
+	w.builds = nil
+	c.markAttached()
+	c.r.Count("op.restart_race")
+	c.step(line, "deliver", "ok")
+	c.checkScratch("restart with a deletion during start")
 }
 
 // markAttached refreshes the set of records attached to the local settings tree from storage.
